@@ -121,7 +121,7 @@ RunOutput run_hist(const Plan& plan, const RunOpts& o)
         obs.lanczos = family_symmetric_like(spec.family);
         obs.identity_ip = !(spec.family == F_GREGINV || spec.family == F_GSHIFTINV || spec.family == F_GBUCK || spec.family == F_GCAYLEY);
         obs.calib = &calib;
-        obs.general = family_is_general(spec.family);
+        obs.general = family_is_general(spec.family) && !(plan.params.has("no_regime_skip") && plan.params.at("no_regime_skip").as_bool());
         obs.out = &out.viol;
         alpha->ctx.observer = &obs;
     }
@@ -130,6 +130,8 @@ RunOutput run_hist(const Plan& plan, const RunOpts& o)
         build_ref_op(*alpha->world, ref);
         alpha->ctx.beta_scale = ref.normOp;
     }
+    // replay files of the known findings switch the regime exclusion off (params.no_regime_skip)
+    const bool no_regime_skip = plan.params.has("no_regime_skip") && plan.params.at("no_regime_skip").as_bool();
     const bool numeric_on = (prop == "C01" || prop == "C02" || prop == "C03") && prop == numeric_prop_of_family(spec.family);
     const bool consistency_on = (prop == "C05");
     const bool refine_on = (prop == "C06");
@@ -190,7 +192,7 @@ RunOutput run_hist(const Plan& plan, const RunOpts& o)
             // The general (Arnoldi) solvers of the pinned tree lose the orthonormality of the basis after
             // many implicit restarts and after a Krylov breakdown (known findings KF-restart-drift,
             // KF-arnoldi-breakdown): numeric clauses give a verdict only outside those regimes
-            const bool numeric_regime = !(family_is_general(spec.family) && (rec.restarts_since_init > kMaxRestartsForVerdict || rec.expands > 0));
+            const bool numeric_regime = no_regime_skip || !(family_is_general(spec.family) && (rec.restarts_since_init > kMaxRestartsForVerdict || rec.expands > 0));
             if (!numeric_regime) out.stats.add("numeric.skipped_known_regime");
             if (numeric_on && numeric_regime)
             {
@@ -255,6 +257,7 @@ RunOutput run_hist(const Plan& plan, const RunOpts& o)
         {
             out.viol[vi].min_beta_rel = (double) rec.min_beta_rel;
             out.viol[vi].expands = rec.expands;
+            out.viol[vi].restarts = rec.restarts_since_init;
         }
         if (i >= observed_from)
         {
